@@ -465,6 +465,27 @@ def check_symbols(run, lst, ob):
         if exp[0] == "pos":
             ctr["labels_compared"] += 1
             if got[0] == "pos" and (got[1], got[2]) == (exp[1], exp[2]):
+                # the same place can be spelled "end of the block in front":
+                # a label that slid off a wholly deleted block stands at the
+                # START of what follows (padding put in front of an aligned
+                # follower would otherwise come between them)
+                if tok is not None and tok.bid is not None and \
+                        not tok.at_end and tok.patch is None and \
+                        tok.bid in lst.deleted_blocks and \
+                        tok.bid not in proxy_blocks:
+                    sym_ = getattr(run.bu, "symbols", {}).get(name)
+                    seq_ = tok_seq[exp[1]]
+                    k_ = next(k for k, t in enumerate(seq_) if t is tok)
+                    follows = any(t.t in "ID" and not t.uncovered
+                                  for t in seq_[k_ + 1:])
+                    ctr["slid_labels_checked"] = ctr.get(
+                        "slid_labels_checked", 0) + 1
+                    if sym_ is not None and sym_.at_end and follows:
+                        viol.append({
+                            "key": "symbol-moved:start:slid-onto-the-end-of-"
+                                   "the-previous-block",
+                            "msg": f"{name}: at_end of a block although "
+                                   f"bytes follow"})
                 continue
             nb = slid_onto_proxy(tok) if tok is not None else None
             if nb is not None and got[0] == "proxy":
